@@ -8,5 +8,5 @@ props=${@:-C01 C02 C03 C04 C05 C06 C07 C08 C09 C10 C11 C12 C13 C14 C15 C18 C20}
 mkdir -p evidence replays
 for p in $props; do
   VERIF_BUDGET_S=$budget ./bin/verif check $p --tier thorough 2>&1 | grep -E '^(VIOLATION|KNOWN|C[0-9]+:|  C[0-9]+/|TROUBLE|self-assess|worker)' | cut -c1-500
-  echo "exit=$? $p"
+  echo "exit=${PIPESTATUS[0]} $p"
 done
